@@ -129,6 +129,12 @@ func representableVBH(b *Built) bool {
 			return false
 		}
 	}
+	// a bloom filter of another geometry is outside the model's header (the model has no bloom at all: the
+	// protocol does not commit to it); juno refuses such a block late, inside the batch, when the running
+	// event filter cannot merge it
+	if eb := b.Block.EventsBloom; eb != nil && (eb.Cap() != core.EventsBloomLength || eb.K() != core.EventsBloomHashFuncs) {
+		return false
+	}
 	return !b.ClassCacheTampered
 }
 
